@@ -15,6 +15,9 @@ SUGGEST = {2: ["0", "1"], 15: ["0", "1"], 16: ["0", "1"], 36: ["0", "1"], 3: ["0
            23: ["0", "43", "57", "99.9"], 21: ["Off", "HeatOn"], 22: ["Auto", "Max", "0", "1"],
            40: ["ff0000"], 41: ["ff0000ff"], 44: ["20"], 45: ["21.5"], 49: ["55.7,13.2,12"], 56: ["0.5", "-0.5"]}
 FW_GOOD_CFG = "010001005000D4460102"
+SPELLINGS = {"1.4": ["1.4", "1.4", "1.4.1", "1.4.0", "nonsense", "1.3"], "1.5": ["1.5", "1.5", "1.5.0", "1.10", "1.9.3"],
+             "2.0": ["2.0", "2.0", "2.0.0", "2.0.5"], "2.1": ["2.1", "2.1", "2.1.1", "2.1.0"],
+             "2.2": ["2.2", "2.2", "2.2.0", "2.3", "3.0.1", "2.12"]}
 
 
 def hexwords(*ws):
@@ -102,11 +105,14 @@ class Gen:
             return f"{n};255;3;{a};{r.randint(0, 35)};{r.choice(TEXTS)}"
         if k == "fwcfg":
             pl = r.choice([FW_GOOD_CFG, hexwords(self.fws[0][0], self.fws[0][1], 5, 6, 7), "zz", "0100", "", "0100010000",
-                           FW_GOOD_CFG + "00", FW_GOOD_CFG.lower()])
+                           FW_GOOD_CFG + "00", FW_GOOD_CFG.lower(), "0100 0100 5000 D446 0102", "01000100 5000D4460102",
+                           "0x0100010050", "01000100500\tD4460102"])
             return f"{n};255;4;{a};0;{pl}"
         if k == "fwreq":
             f = r.choice(self.fws + [(9, 9)])
-            pl = r.choice([hexwords(f[0], f[1], r.choice([0, 1, 7, 8, 500])), "zz", "0100", "", "01000200030", "é"])
+            good = hexwords(f[0], f[1], r.choice([0, 1, 7, 8, 500]))
+            pl = r.choice([good, good, "zz", "0100", "", "01000200030", "é", good[:4] + " " + good[4:8] + " " + good[8:],
+                           good[:6] + "  " + good[6:], " " + good])
             return f"{n};255;4;{a};2;{pl}"
         if k == "otherstream":
             return f"{n};255;4;{a};{r.choice([1, 3, 4, 5])};{r.choice(TEXTS)}"
@@ -149,9 +155,13 @@ def run_history(rng, version, flavour, steps, *, profile=None, calls=True, persi
                 tick_p=0.06, restart_p=0.03, snap_dir=None, snap_p=0.0, no_callback=False):
     """One random history on a fresh gateway; returns the trace dict."""
     interner = Interner()
-    drv = Driver(version, flavour, interner, persistence_file=persist, raising_cb=raising_cb, mqtt=mqtt, no_callback=no_callback)
+    drv = Driver(version, flavour, interner, persistence_file=persist, raising_cb=raising_cb, mqtt=mqtt, no_callback=no_callback,
+                 spelling=rng.choice(SPELLINGS[version]))
     gen = Gen(rng, version, profile)
     gen.ota_nodes = []
+    gen.pending = []
+
+    # (no traffic before start_persistence(): the README requires persistence to be started before the gateway)
     if persist:
         drv.start_persistence()
     if prefix == "mix":
@@ -164,6 +174,11 @@ def run_history(rng, version, flavour, steps, *, profile=None, calls=True, persi
             drv.pump()
             continue
         x = rng.random()
+        if gen.pending and rng.random() < 0.3:
+            # the node applies a value the controller asked for and reports exactly that value
+            n_, c_, t_, v_ = gen.pending.pop(rng.randrange(len(gen.pending)))
+            drv.recv(f"{n_};{c_};1;0;{t_};{v_}\n")
+            continue
         if snap_dir and rng.random() < snap_p:
             drv.snapshot(snap_dir)
             continue
@@ -177,8 +192,10 @@ def run_history(rng, version, flavour, steps, *, profile=None, calls=True, persi
                 else:
                     drv.set_child_raw(gen.n(), gen.c(), tt, value)
             else:
-                drv.set_child(gen.n(), gen.c(), t, rng.choice([gen.val(t), gen.val(t), 1, 0, 57]), ack=gen.ack(),
-                              key_as_str=rng.random() < 0.2)
+                n_, c_, v_ = gen.n(), gen.c(), rng.choice([gen.val(t), gen.val(t), 1, 0, 57])
+                ev = drv.set_child(n_, c_, t, v_, ack=gen.ack(), key_as_str=rng.random() < 0.2)
+                if ev["exc"] == "none" and isinstance(v_, str) and ";" not in v_:
+                    gen.pending.append((n_, c_, t, v_))
         elif calls and x < 0.16:
             f = rng.choice(gen.fws + [(7, 7)])
             nids = rng.choice([gen.n(), [gen.n(), gen.n()], [], 9])
